@@ -613,7 +613,8 @@ def c18(tier):
                 "{\" / * \\ LF a 1 . SP = ( { 0xFF e} (one representative per branch of lexer::next) plus oversized numerals, and EVERY "
                 "prefix (thorough; quick: every 7th beyond the first 600 bytes) of every file under examples/, through lexer+parser, in the "
                 "Release build and in the Debug+ASan+UBSan build; plus the valid token sequences and expression programs of C16 under the "
-                "sanitizers. Allowed outcomes: accepted, or a std::exception, within 0.4 s (confirmed alone with 2 s); anything else "
+                "sanitizers; plus EVERY byte string of length <=5 (thorough 6) over the 16-symbol JSON alphabet { } [ ] \" : , 1 - . e t n SP \\ a "
+                "through json::from_json + to_json (smt/json) in both builds. Allowed outcomes: accepted, or a std::exception, within 0.4 s (confirmed alone with 2 s); anything else "
                 "(signal, std::terminate, sanitizer report, other exception, hang, >1 GB) is a violation. (b) valid programs: every program "
                 "of the families of C01-C06, C16, C17 (constraint networks, timelines, rules, objects, expression evaluation) through "
                 "read()+solve() in Debug+ASan+UBSan (thorough: four configurations incl. Release and the evaluation family): no abort, assertion, sanitizer report, "
